@@ -4,7 +4,9 @@ import (
 	"fmt"
 	"os"
 	"path/filepath"
+	"runtime"
 	"strings"
+	"sync"
 
 	"github.com/oxia-db/oxia/proto"
 	"github.com/oxia-db/oxia/server/kv"
@@ -157,10 +159,22 @@ func insertions(base, alphabet string) []string {
 // withInjections expands every base history to base+kind+k for k = 1..number of batch commits the
 // implementation performs during that history (measured on the implementation under test).
 func withInjections(r runner, ref *reference, bases []string, kind byte) []string {
+	commits := make([]int64, len(bases))
+	var wg sync.WaitGroup
+	sem := make(chan struct{}, runtime.NumCPU())
+	for i, b := range bases {
+		wg.Add(1)
+		sem <- struct{}{}
+		go func(i int, b string) {
+			defer wg.Done()
+			defer func() { <-sem }()
+			commits[i] = r(ref, b, -1, false).commits
+		}(i, b)
+	}
+	wg.Wait()
 	var out []string
-	for _, b := range bases {
-		o := r(ref, b, -1, false)
-		for k := int64(1); k <= o.commits; k++ {
+	for i, b := range bases {
+		for k := int64(1); k <= commits[i]; k++ {
 			out = append(out, fmt.Sprintf("%s%c%d", b, kind, k))
 		}
 	}
